@@ -186,6 +186,10 @@ func runEncoding(e *Enc, fn *ssa.Function, props []string) {
 	if sp != nil && len(sp.Props) > 0 && props == nil {
 		f.props = sp.Props
 	}
+	if f.props == nil {
+		// a function without a block of its own counts for the properties of its package
+		f.props = P.funcProps(fn)
+	}
 	st := &State{heap: map[string]Term{}, epoch: 0}
 	a0 := e.declare("alloc0", SInt)
 	e.assume(ge(a0, intLit(1)), a0.S)
